@@ -38,8 +38,8 @@ class C13(Check):
     resolvers = {"perturb": resolve_perturb, "examiner_spec": examiner_spec}
     nontrivial_rule = ("the script performed at least two result-producing calls (solve / find_another*) on one solver object "
                        "and the reference model (examiner + blocking state) judged each of them")
-    expected_probes = ["pattern:solve>solve", "pattern:solve>find_another", "false_judged_by_examiner", "loop_exit:unknown", "fault:unknown",
-                       "fault:virtual-timeout", "cfg:incremental", "cfg:optimize", "cfg:none", "depth_left_behind"]
+    expected_probes = ["pattern:solve>solve", "pattern:solve>find_another", "false_judged_by_examiner", "fault:unknown",
+                       "fault:virtual-timeout", "cfg:incremental", "cfg:optimize", "cfg:none", "io_error_out_of_solve"]
 
     def plan(self, run_seed, tier):
         rng = keyed_rng(run_seed, "plan")
@@ -66,6 +66,11 @@ class C13(Check):
                 "clients": [{"id": "A", "spec": spec, "config": cfg}], "script": []}
         fault_free = rng.random() < 0.45
         plan["fault_free"] = fault_free
+        if not fault_free and spec["objectives"] and cfg.get("optimizer") != "optimize" and rng.random() < 0.3:
+            # F8: the disk fails while the incremental optimiser dumps an intermediate state,
+            # i.e. an exception leaves solve() in the middle of its loop
+            cfg["save_intermediate_states"] = True
+            plan["fs_faults"] = [{"at": rng.choice(["open", "write", "close"]), "nth_file": rng.randint(1, 3), "nth_write": 1, "errno": rng.choice([28, 5])}]
         n_ops = rng.randint(2, 10 if big else 7)
         ops = []
         for j in range(n_ops):
@@ -161,6 +166,8 @@ class C13(Check):
             if out == "exception":
                 if "No current solution" in ev["exc"] and not had_solution:
                     pass  # documented precondition
+                elif ev["exc"].startswith("OSError") and result.get("fs_fired"):
+                    v.probe("io_error_out_of_solve")  # the injected disk fault surfaced: legal; what follows is judged
                 else:
                     v.violate("C13", f"exception/{cc}/{pattern}", [ev["exc"].split(":")[0]], ev["exc"], ev["seq"], "A")
                     tainted = True
